@@ -24,3 +24,11 @@ pub use decoder::{
 };
 pub use encoder::{Encoder, EncoderBuffer, EncoderLenEstimator, EncoderValue};
 pub use unaligned::*;
+
+#[cfg(all(aws_s2n_quic_verif, test, not(kani)))]
+#[path = "/verif/harness/shim/kani.rs"]
+mod kani;
+
+#[cfg(all(aws_s2n_quic_verif, test))]
+#[path = "/verif/harness/codec/primitives.rs"]
+mod verif;
